@@ -3,6 +3,11 @@
 // Contracts for package entry, checked by /verif (govc). Comment-only: nothing here is compiled into normal builds.
 package entry
 
+import (
+	"berty.tech/go-ipfs-log/identityprovider"
+	"berty.tech/go-ipfs-log/iface"
+)
+
 // ---- shared vocabulary ----
 //@ define validClock(c iface.IPFSLogLamportClock) = typeis(c, "*LamportClock") && ref(c) != nil
 //@ define validEntry(e iface.IPFSLogEntry) = typeis(e, "*Entry") && ref(e) != nil && e.Clock != nil
@@ -196,6 +201,8 @@ package entry
 //@   ensures err == nil ==> result0.Key == e.Key && result0.AdditionalData == e.AdditionalData
 //@   ensures [signed-next-is-the-predecessor-list-in-order] err == nil ==> len(result0.Next) == len(e.Next) && (forall i int :: 0 <= i && i < len(e.Next) ==> result0.Next[i] == cidb58(e.Next[i]))
 //@   ensures [signed-refs-is-the-reference-list-in-order] err == nil ==> len(result0.Refs) == len(e.Refs) && (forall i int :: 0 <= i && i < len(e.Refs) ==> result0.Refs[i] == cidb58(e.Refs[i]))
+//@   ensures [signed-next-sequence] err == nil ==> sameseq(seq(result0.Next), b58seq(seq(e.Next)))
+//@   ensures [signed-refs-sequence] err == nil ==> sameseq(seq(result0.Refs), b58seq(seq(e.Refs)))
 //@   loop 0
 //@     invariant fresh(nexts) && off(nexts) == 0 && len(nexts) == len(e.Next) && fresh(refs) && off(refs) == 0 && len(refs) == len(e.Refs) && ref(nexts) != ref(refs)
 //@     invariant forall j int :: 0 <= j && j < $k ==> nexts[j] == cidb58(e.Next[j])
@@ -204,13 +211,23 @@ package entry
 //@     invariant forall j int :: 0 <= j && j < len(e.Next) ==> nexts[j] == cidb58(e.Next[j])
 //@     invariant forall j int :: 0 <= j && j < $k ==> refs[j] == cidb58(e.Refs[j])
 
+// ---- C07: the bytes that are signed ----
+// hasAdd/addData: the optional additional_data member of the signed object
+//@ define hasAdd(m map[string]string) = len(m) > 0
+//@ define addData(m map[string]string) = ite(len(m) > 0, addOf(keysof(m), valsof(m)), noAdd())
+// signedBytesOf(x): the signed JSON text as a function of the entry's own fields
+//@ define signedBytesOf(x iface.IPFSLogEntry) = signedJSON(x.LogID, jsonText(str(x.Payload)), b58seq(seq(x.Next)), b58seq(seq(x.Refs)), x.V, hexenc(bytes(x.Clock.ID)), x.Clock.Time, hasAdd(x.AdditionalData), addData(x.AdditionalData))
 //@ func toBuffer
 //@   requires e == nil || validClock(e.Clock)
 //@   ensures e == nil ==> err != nil
+//@   ensures err == nil ==> fresh(result0)
+//@   ensures [signed-bytes-are-the-json-of-every-signed-field] err == nil ==> bytes(result0) == signedJSON(e.ID, jsonText(str(e.Payload)), seq(e.Next), seq(e.Refs), e.V, hexenc(bytes(e.Clock.(*LamportClock).ID)), e.Clock.(*LamportClock).Time, hasAdd(e.AdditionalData), addData(e.AdditionalData))
 
 //@ func (*Entry).Verify
 //@   requires identity != nil && validAnyIO(io)
 //@   assumes [verify-success-means-signature-valid] err == nil ==> sigOK(e)
+//@   ensures [verify-success-means-the-signature-covers-the-current-fields] err == nil && !(typeis(io, "*cbor.IOCbor") && io.(*cbor.IOCbor).linkKey != nil) ==> sigValid(bytes(e.Key), signedBytesOf(e), bytes(e.Sig))
+//@   ensures [verify-needs-key-and-signature] err == nil ==> e != nil && len(e.Key) > 0 && len(e.Sig) > 0
 //@   replay verifyentry
 //@   requires e == nil || e.Clock != nil
 
@@ -320,3 +337,61 @@ package entry
 //@     invariant forall s string :: has(processed, s) && processed[s] ==> (exists i int :: 0 <= i && i < len(diff) && ehash(diff[i]) == s)
 //@     invariant forall i int :: 0 <= i && i < len(diff) ==> has(processed, ehash(diff[i])) && processed[ehash(diff[i])]
 //@     invariant forall j int :: 0 <= j && j < $k ==> (exists q int :: 0 <= q && q < len(a) && ehash(a[q]) == ehash(b[j])) || (exists i int :: 0 <= i && i < len(diff) && ehash(diff[i]) == ehash(b[j]))
+
+// ---- C07: tamper evidence ----
+// The signed bytes are recomputed from the entry's current fields by ToHashable + toBuffer. The lemma functions call the
+// real functions on two arbitrary entries: equal signed bytes force every signed field to be equal, so a change to any
+// of them changes the bytes handed to the signature check; and two successful verifications under the same key and
+// signature are verifications of the same signed fields.
+
+// signedFieldsAgree(a, b): every field the property lists as signed is the same in a and b (payload compared as bytes)
+//@ define sameList(s []cid.Cid, t []cid.Cid) = len(s) == len(t) && (forall i int :: 0 <= i && i < len(s) ==> s[i] == t[i])
+//@ define signedFieldsAgreeButPayload(a *Entry, b *Entry) = a.LogID == b.LogID && a.V == b.V && a.Clock.Time == b.Clock.Time && bytes(a.Clock.ID) == bytes(b.Clock.ID) && sameList(a.Next, b.Next) && sameList(a.Refs, b.Refs)
+
+//@ func verifLemmaSignedBytesBindFields
+//@   lemma
+//@   requires a != nil && b != nil && a.Clock != nil && b.Clock != nil
+//@   ensures [equal-signed-bytes-mean-equal-log-id] result2 && bytes(result0) == bytes(result1) ==> a.LogID == b.LogID
+//@   ensures [equal-signed-bytes-mean-equal-version] result2 && bytes(result0) == bytes(result1) ==> a.V == b.V
+//@   ensures [equal-signed-bytes-mean-equal-clock] result2 && bytes(result0) == bytes(result1) ==> a.Clock.Time == b.Clock.Time && bytes(a.Clock.ID) == bytes(b.Clock.ID)
+//@   ensures [equal-signed-bytes-mean-equal-predecessor-list-in-order] result2 && bytes(result0) == bytes(result1) ==> sameList(a.Next, b.Next)
+//@   ensures [equal-signed-bytes-mean-equal-reference-list-in-order] result2 && bytes(result0) == bytes(result1) ==> sameList(a.Refs, b.Refs)
+//@   ensures [equal-signed-bytes-mean-equal-text-payload] result2 && bytes(result0) == bytes(result1) && utf8(str(a.Payload)) && utf8(str(b.Payload)) ==> bytes(a.Payload) == bytes(b.Payload)
+//@   ensures [equal-signed-bytes-mean-equal-payload-bytes] result2 && bytes(result0) == bytes(result1) ==> bytes(a.Payload) == bytes(b.Payload)
+//@   replay tamper
+func verifLemmaSignedBytesBindFields(a, b *Entry) ([]byte, []byte, bool) {
+	ha, err := ToHashable(a)
+	if err != nil {
+		return nil, nil, false
+	}
+
+	hb, err := ToHashable(b)
+	if err != nil {
+		return nil, nil, false
+	}
+
+	ba, err := toBuffer(ha)
+	if err != nil {
+		return nil, nil, false
+	}
+
+	bb, err := toBuffer(hb)
+	if err != nil {
+		return nil, nil, false
+	}
+
+	return ba, bb, true
+}
+
+//@ func verifLemmaTamperEvident
+//@   lemma
+//@   requires a != nil && b != nil && a.Clock != nil && b.Clock != nil && identity != nil && validAnyIO(io)
+//@   requires [no-link-key] !(typeis(io, "*cbor.IOCbor") && io.(*cbor.IOCbor).linkKey != nil)
+//@   requires [same-key-and-signature] bytes(a.Key) == bytes(b.Key) && bytes(a.Sig) == bytes(b.Sig)
+//@   ensures [one-signature-verifies-one-log-id-version-and-clock] result0 == nil && result1 == nil ==> a.LogID == b.LogID && a.V == b.V && a.Clock.Time == b.Clock.Time && bytes(a.Clock.ID) == bytes(b.Clock.ID)
+//@   ensures [one-signature-verifies-one-predecessor-list] result0 == nil && result1 == nil ==> sameList(a.Next, b.Next)
+//@   ensures [one-signature-verifies-one-reference-list] result0 == nil && result1 == nil ==> sameList(a.Refs, b.Refs)
+//@   ensures [one-signature-verifies-one-text-payload] result0 == nil && result1 == nil && utf8(str(a.Payload)) && utf8(str(b.Payload)) ==> bytes(a.Payload) == bytes(b.Payload)
+func verifLemmaTamperEvident(a, b *Entry, identity identityprovider.Interface, io iface.IO) (error, error) {
+	return a.Verify(identity, io), b.Verify(identity, io)
+}
